@@ -1,4 +1,5 @@
 import RavenModel.Model.SearchImpl
+import RavenModel.Base.GoStrSub
 /-! # C19 — SEARCH returns exactly the messages that satisfy the criteria -/
 namespace Raven.Props.C19
 open Raven Raven.Search
@@ -165,5 +166,20 @@ theorem nested_examples :
 theorem set_examples :
     setMatches 3 5 (b!"*") = false ∧ setMatches 5 5 (b!"*") = true ∧ setMatches 2 5 (b!"1,3:*") = false ∧
     setMatches 4 5 (b!"1,3:*") = true ∧ setMatches 2 5 (b!"3:1") = true := by decide
+
+/-- C19.9  the substring keys (FROM, TO, CC, BCC, SUBJECT, HEADER, BODY, TEXT) test for a **factor**, without regard to ASCII
+letter case: the key holds exactly when the searched text, in upper case, is `a ++ needle ++ b` for some `a` and `b` — wherever
+the occurrence lies and whatever precedes it, a false start of the needle included. -/
+theorem substring_key_is_factor (text needle : Bytes) :
+    GoStr.containsSub (toUpper text) (toUpper needle) = true ↔ ∃ a b, toUpper text = a ++ toUpper needle ++ b :=
+  GoStr.containsSub_iff _ _
+
+/-- occurrences that begin inside a false start of the needle -/
+theorem substring_false_starts :
+    GoStr.containsSub (toUpper (b!"ref 00012")) (toUpper (b!"0012")) = true ∧
+    GoStr.containsSub (toUpper (b!"xaaab")) (toUpper (b!"AAB")) = true ∧
+    GoStr.containsSub (toUpper (b!"mamamma mia")) (toUpper (b!"mamma")) = true ∧
+    GoStr.containsSub (toUpper (b!"abcabcabd")) (toUpper (b!"abcabd")) = true ∧
+    GoStr.containsSub (toUpper (b!"abcabcabe")) (toUpper (b!"abcabd")) = false := by decide
 
 end Raven.Props.C19
